@@ -2,11 +2,13 @@ import TexelVerif.Drv.TT
 import TexelVerif.Drv.Chess
 import TexelVerif.Drv.Uci
 import TexelVerif.Drv.Mate
+import TexelVerif.Drv.NN
 /-! Line-protocol driver: one operation per stdin line, one canonical reply line.
     Imports model files only (no proofs, no Mathlib), so it links as a `lean_exe`. -/
 
 structure DrvState where
   tt : TT.Table := default
+  nn : Drv.NN.State := {}
 
 def dispatch (st : DrvState) (line : String) : DrvState × String :=
   let toks := (line.trimAscii.toString.splitOn " ").filter (· ≠ "")
@@ -15,6 +17,7 @@ def dispatch (st : DrvState) (line : String) : DrvState × String :=
   | "chess" :: args => (st, Drv.Chess.step args)
   | "uci" :: args => (st, Drv.Uci.step args)
   | "mate" :: args => (st, Drv.Mate.step args)
+  | "nn" :: args => let (t, o) := Drv.NN.step st.nn args; ({ st with nn := t }, o)
   | _ => (st, "bad-op")
 
 partial def loop (h : IO.FS.Stream) (out : IO.FS.Stream) (st : DrvState) : IO Unit := do
